@@ -94,6 +94,14 @@ def main():
                               note="a refinement whose condition binds a variable of its own: the inferred instances are not one per "
                                    "triggering binding, built from that binding's values")
                 break
+        exp2 = sorted([t[0], t[1], t[2]] for t in c["exp2"])
+        for o in r["refalt"]:
+            if isinstance(o, str) or sorted(map(list, {tuple(t) for t in o})) != exp2:
+                ctx.violation({"world": key, "template": "refinement with an alternative inside it that introduces a variable",
+                               "expected_instances": exp2, "observed_per_domain_order": r["refalt"]},
+                              note="branches that conclude over different variable sets: the inferred instances are not one per "
+                                   "triggering binding")
+                break
     # the coverage index the selectors use for "already concluded for this binding" (SeenSet.tla)
     ctx.run_tlc("SeenSet", "SeenSet_mc.cfg", expect="ok")
     ctx.run_tlc("SeenSet", "SeenSet_mc_nokeys.cfg", expect="ok")
